@@ -44,3 +44,292 @@ def any_type(env, mod, t, pred):
         if pred(r):
             return True
     return False
+
+
+# ---------------------------------------------------------------------------
+# predicates
+
+def _is_kind(r, *kinds):
+    return r.base.kind in kinds
+
+
+@carve('per-size-max-extensible', ['C01', 'C05', 'C16', 'C18', 'C19', 'C13'])
+def _per_size_max_ext(env, mod, t, v, codec):
+    """PER/UPER: an extensible constraint with a MIN/MAX end point
+    (SIZE (n..MAX, ...), INTEGER (MIN..n, ...)) -> TypeError in encode."""
+    if codec not in ('per', 'uper'):
+        return False
+    return any_type(env, mod, t, lambda r: (r.size is not None and r.size.ext and r.size.hi is None
+                                            and r.base.kind in ('BIT STRING', 'OCTET STRING', 'SEQUENCE OF', 'SET OF') + tuple(KM))
+                    or (r.base.kind == 'INTEGER' and r.rng is not None and r.rng.ext
+                        and (r.rng.lo is None or r.rng.hi is None)))
+
+
+KM = ('NumericString', 'PrintableString', 'IA5String', 'VisibleString', 'BMPString')
+
+
+def _junk_bits(data, nbits):
+    data = bytes(data)
+    if len(data) * 8 <= nbits:
+        return False
+    full, rest = divmod(nbits, 8)
+    if rest and data[full] & (0xff >> rest):
+        return True
+    start = full + (1 if rest else 0)
+    return any(data[start:])
+
+
+@carve('per-named-bits-junk', ['C01', 'C05', 'C16', 'C18', 'C19', 'C13', 'C07'])
+def _per_named_bits_junk(env, mod, t, v, codec):
+    """PER/UPER named-bit BIT STRING: bits beyond the declared bit count are
+    treated as significant (trailing-zero stripping looks at the whole buffer)."""
+    if codec not in ('per', 'uper'):
+        return False
+    return any_node(env, mod, t, v, lambda r, nv: r.base.kind == 'BIT STRING' and r.base.named_bits
+                    and isinstance(nv, tuple) and _junk_bits(nv[0], nv[1]))
+
+
+@carve('per-bmpstring-permitted-alphabet', ['C01', 'C05', 'C16', 'C18', 'C19', 'C13', 'C07'])
+def _per_bmp_from(env, mod, t, v, codec):
+    """PER/UPER BMPString with a FROM constraint: decoder rebuilds characters with
+    the wrong byte width."""
+    if codec not in ('per', 'uper'):
+        return False
+    return any_type(env, mod, t, lambda r: r.base.kind == 'BMPString' and r.alpha is not None)
+
+
+@carve('per-single-character-alphabet', ['C01', 'C05', 'C16', 'C18', 'C19', 'C13', 'C07'])
+def _per_single_char(env, mod, t, v, codec):
+    """PER/UPER FROM("a"): zero bits per character, decoder yields ''."""
+    if codec not in ('per', 'uper'):
+        return False
+    return any_type(env, mod, t, lambda r: r.base.kind in KM and r.alpha is not None
+                    and len(r.alpha.chars()) == 1)
+
+
+@carve('oer-utf8string-fixed-size-octets', ['C01', 'C16', 'C18', 'C19', 'C13', 'C07'])
+def _oer_utf8_fixed(env, mod, t, v, codec):
+    """OER UTF8String (SIZE(n)) is encoded as n octets without length: breaks for
+    non-ASCII characters."""
+    if codec != 'oer':
+        return False
+    return any_node(env, mod, t, v, lambda r, nv: r.base.kind == 'UTF8String' and r.size is not None
+                    and not r.size.ext and r.size.lo == r.size.hi and isinstance(nv, str)
+                    and len(nv.encode('utf-8')) != len(nv))
+
+
+@carve('oer-integer-extensible-treated-as-constrained', ['C01', 'C16', 'C18', 'C19', 'C13', 'C07'])
+def _oer_int_ext(env, mod, t, v, codec):
+    """OER INTEGER (lb..ub, ...): the extensible constraint is used to pick a
+    fixed unsigned/signed width; values outside it are mangled."""
+    if codec != 'oer':
+        return False
+    return any_node(env, mod, t, v, lambda r, nv: r.base.kind == 'INTEGER' and r.rng is not None
+                    and r.rng.ext and isinstance(nv, int) and not r.rng.contains(nv))
+
+
+# ---- structural predicates (need tagging) ---------------------------------
+from .asn import tagging
+from .asn.ast import flat_additions, Group
+
+
+def _constructed_nodes(env, mod, t):
+    for r, path, _ in V.walk_types(env, mod, t):
+        if r.base.kind in ('SEQUENCE', 'SET', 'CHOICE'):
+            yield r
+
+
+@carve('ber-extensible-choice-member-swallows-next', ['C01', 'C03', 'C04', 'C15', 'C16', 'C18', 'C19', 'C13', 'C07'])
+def _ber_ext_choice(env, mod, t, v, codec):
+    """BER/DER: an untagged extensible CHOICE that is an OPTIONAL/DEFAULT member of a
+    SEQUENCE, or any member of a SET, treats the TLV of a *following* member as an
+    unknown extension alternative and swallows it."""
+    if codec not in ('ber', 'der'):
+        return False
+    for r in _constructed_nodes(env, mod, t):
+        if r.base.kind == 'CHOICE':
+            continue
+        auto = tagging.component_autotags(env, r.mod, r.base)
+        for c in all_comps(r.base):
+            if not (c.optional or c.has_default or r.base.kind == 'SET'
+                    or c in flat_additions(r.base)):
+                continue
+            ls, cr = tagging.layers(env, r.mod, c.t, auto.get(c.name))
+            if not ls and env.is_extensible(cr):
+                return True
+    return False
+
+
+@carve('ber-sequence-same-tag-members-misassigned', ['C01', 'C03', 'C04', 'C15', 'C16', 'C18', 'C19', 'C13', 'C07'])
+def _ber_same_tag(env, mod, t, v, codec):
+    """BER/DER SEQUENCE with an OPTIONAL/DEFAULT root member and an extension
+    addition of the same tag (legal when a mandatory member separates them): when
+    the root member is absent the order-insensitive member loop assigns the
+    addition's TLV to it."""
+    if codec not in ('ber', 'der'):
+        return False
+    for r in _constructed_nodes(env, mod, t):
+        if r.base.kind != 'SEQUENCE':
+            continue
+        auto = tagging.component_autotags(env, r.mod, r.base)
+        root = set()
+        for c in list(r.base.comps or []) + list(r.base.comps2 or []):
+            if c.optional or c.has_default:
+                root |= tagging.outer_tags(env, r.mod, c.t, auto.get(c.name))
+        for c in flat_additions(r.base):
+            if tagging.outer_tags(env, r.mod, c.t, auto.get(c.name)) & root:
+                return True
+    return False
+
+
+@carve('oer-choice-with-untagged-choice-alternative', ['C01', 'C06', 'C16', 'C18', 'C19', 'C13', 'C07'])
+def _oer_choice_in_choice(env, mod, t, v, codec):
+    """OER CHOICE whose alternative is an untagged CHOICE: TypeError in encode."""
+    if codec != 'oer':
+        return False
+    for r in _constructed_nodes(env, mod, t):
+        if r.base.kind != 'CHOICE':
+            continue
+        auto = tagging.component_autotags(env, r.mod, r.base)
+        for c in all_comps(r.base):
+            ls, cr = tagging.layers(env, r.mod, c.t, auto.get(c.name))
+            if not ls:
+                return True
+    return False
+
+
+def zeroish(env, mod, t, v, depth=0):
+    """Over-approximation of 'the PER encoding of v consists of zero bits only'."""
+    r = env.res(mod, t)
+    b = r.base
+    k = b.kind
+    try:
+        if depth > 8:
+            return True
+        if k == 'BOOLEAN':
+            return v is False
+        if k == 'NULL':
+            return True
+        if k == 'INTEGER':
+            return r.rng is not None and r.rng.lo is not None and r.rng.hi is not None and v == r.rng.lo
+        if k == 'ENUMERATED':
+            root = sorted(b.enum_root, key=lambda x: x[2])
+            return v == root[0][0] or v == root[0][2]
+        if k == 'REAL':
+            return v == 0.0
+        if k == 'BIT STRING':
+            return not any(bytes(v[0]))
+        if k == 'OCTET STRING':
+            return not any(bytes(v))
+        if k in STRING_KINDS:
+            return len(set(v)) <= 1
+        if k in ('SEQUENCE', 'SET'):
+            for c in all_comps(b):
+                if c.name in v:
+                    if c.optional:
+                        return False
+                    if c.has_default and V.canon(env, r.mod, c.t, v[c.name]) != V.canon(env, r.mod, c.t, c.default):
+                        return False
+                    if not zeroish(env, r.mod, c.t, v[c.name], depth + 1):
+                        return False
+            return True
+        if k == 'CHOICE':
+            for c in all_comps(b):
+                if c.name == v[0]:
+                    return zeroish(env, r.mod, c.t, v[1], depth + 1)
+            return True
+        if k in ('SEQUENCE OF', 'SET OF'):
+            return all(zeroish(env, r.mod, b.elem, e, depth + 1) for e in v)
+    except Exception:
+        return True
+    return False
+
+
+@carve('per-addition-group-all-zero-bits-dropped', ['C01', 'C05', 'C16', 'C18', 'C19', 'C13', 'C07'])
+def _per_group_zero(env, mod, t, v, codec):
+    """PER/UPER: an extension addition group whose encoding consists of zero bits
+    only (e.g. [[ a INTEGER (0), b BOOLEAN OPTIONAL ]] with a = 0) is treated as
+    absent by the encoder and its members are lost."""
+    if codec not in ('per', 'uper'):
+        return False
+
+    def pred(r, nv):
+        if r.base.kind not in ('SEQUENCE', 'SET') or not isinstance(nv, dict):
+            return False
+        for a in (r.base.ext or []):
+            if not isinstance(a, Group):
+                continue
+            present = [c for c in a.comps if c.name in nv]
+            if not present:
+                continue
+            ok = True
+            for c in present:
+                if c.optional:
+                    ok = False
+                    break
+                if c.has_default and V.canon(env, r.mod, c.t, nv[c.name]) != V.canon(env, r.mod, c.t, c.default):
+                    ok = False
+                    break
+                if not c.has_default and not zeroish(env, r.mod, c.t, nv[c.name]):
+                    ok = False
+                    break
+            if ok:
+                return True
+        return False
+    return any_node(env, mod, t, v, pred)
+
+
+def _reaches(env, mod, name, target, seen):
+    """Does named type (mod,name) reference target=(modname,name) (transitively)?"""
+    key = (mod.name, name)
+    if key in seen:
+        return False
+    seen.add(key)
+    try:
+        m, a = env.lookup(mod, name)
+    except KeyError:
+        return False
+    stack = [a.t]
+    while stack:
+        x = stack.pop()
+        if x.kind == 'REF':
+            try:
+                m2, a2 = env.lookup(m, x.ref)
+            except KeyError:
+                continue
+            if (m2.name, a2.name) == target:
+                return True
+            if _reaches(env, m2, a2.name, target, seen):
+                return True
+        elif x.kind in ('SEQUENCE', 'SET', 'CHOICE'):
+            stack.extend(c.t for c in all_comps(x))
+        elif x.kind in ('SEQUENCE OF', 'SET OF'):
+            stack.append(x.elem)
+    return False
+
+
+def is_recursive_ref(env, mod, t):
+    """t is a REF to a named type that can reach itself."""
+    if t.kind != 'REF':
+        return False
+    try:
+        m, a = env.lookup(mod, t.ref)
+    except KeyError:
+        return False
+    return _reaches(env, m, a.name, (m.name, a.name), set())
+
+
+@carve('oer-choice-alternative-recursive-reference', ['C01', 'C06', 'C16', 'C18', 'C19', 'C13', 'C07'])
+def _oer_choice_recursive(env, mod, t, v, codec):
+    """OER CHOICE alternative that is an untagged reference closing a recursion
+    cycle (compiled to Recursive, which has no tag): TypeError in encode."""
+    if codec != 'oer':
+        return False
+    for r in _constructed_nodes(env, mod, t):
+        if r.base.kind != 'CHOICE':
+            continue
+        auto = tagging.component_autotags(env, r.mod, r.base)
+        for c in all_comps(r.base):
+            if c.t.tag is None and c.name not in auto and is_recursive_ref(env, r.mod, c.t):
+                return True
+    return False
